@@ -206,7 +206,7 @@ impl<'a> GExec<'a> {
             if age == r {
                 ctx.count("probe.retention_boundary_still_valid");
             }
-            if age == r + 1 {
+            if Some(age) == r.checked_add(1) {
                 ctx.count("probe.retention_boundary_just_expired");
             }
             let spec = ProofSpec {
